@@ -34,6 +34,7 @@ type stakeEp struct {
 	m     int // observed accounts: the validators, then m-n accounts (world index i+1) that hold PermClaimValidator but no record yet
 	cons  map[int][]byte // consensus address announced by a claim (model index -> address)
 	claims int
+	pendingParams *govtypes.NetworkProperties // slashing parameters to be set in the next block (after BeginBlock)
 	prop  string
 	halt  bool
 	label string
@@ -266,8 +267,15 @@ func (e *stakeEp) block(absent map[int]bool, mid []stakeOp, txs []stakeOp, dt ti
 			evValid[ev.v] = true
 		}
 	}
+	pp := e.pendingParams
+	e.pendingParams = nil
 	br := w.Block(txBytes, BlockOpts{Absent: absentIdx, Dt: dt, Evidence: misb, Mid: func(ctx sdk.Context) {
 		afterBegin = e.statuses(ctx)
+		if pp != nil {
+			if err := w.app.CustomGovKeeper.SetNetworkProperties(ctx, pp); err != nil {
+				pp = nil
+			}
+		}
 		for _, m := range mid {
 			var err error
 			switch m.kind {
@@ -299,6 +307,10 @@ func (e *stakeEp) block(absent map[int]bool, mid []stakeOp, txs []stakeOp, dt ti
 		r.Op(fmt.Sprintf("stake evidence %d %d %d %d", ev.v, nowNext, b2i(!ev.unknown), b2i(ev.age >= 2)), "ok")
 		r.Count(fmt.Sprintf("evidence:age%d:unknown%v:on-%s", ev.age, ev.unknown, before[ev.v]))
 		r.Case(fmt.Sprintf("%s/%d/evidence/%d/%d/%v", e.label, w.height, ev.v, ev.age, ev.unknown), !ev.unknown && ev.age < 2)
+	}
+	if pp != nil && !(br.Panicked != nil && br.Phase == "begin") {
+		r.Op(fmt.Sprintf("stake params mc=%d mm=%d rd=%d pct=%s dt=%d minv=%d ujt=%d", pp.MischanceConfidence, pp.MaxMischance, pp.MischanceRankDecreaseAmount, pp.InactiveRankDecreasePercent.String(), pp.DowntimeInactiveDuration, pp.MinValidators, pp.UnjailMaxTime), "ok")
+		r.Count("params-changed")
 	}
 	prev := before
 	checkEdges := func(kind string, target int, after []string) {
@@ -845,6 +857,17 @@ func runStake(r *Rec, prop string) {
 			}
 			if r.Rng.Intn(10) == 0 { // evidence naming a consensus key nobody owns: ignored
 				e.ev = append(e.ev, evOp{v: r.Rng.Intn(e.n), unknown: true})
+			}
+			if r.Rng.Intn(9) == 0 {
+				// governance moves the slashing parameters in the middle of the episode (the counters and deadlines on record were
+				// produced under the old ones)
+				np := e.w.app.CustomGovKeeper.GetNetworkProperties(e.w.ReadCtx())
+				np.MischanceConfidence = uint64(1 + r.Rng.Intn(3))
+				np.MaxMischance = uint64(1 + r.Rng.Intn(4))
+				np.MischanceRankDecreaseAmount = uint64(1 + r.Rng.Intn(3))
+				np.DowntimeInactiveDuration = uint64(20 + r.Rng.Intn(60))
+				np.UnjailMaxTime = uint64(15 + r.Rng.Intn(40))
+				e.pendingParams = np
 			}
 			dt := time.Duration(3+r.Rng.Intn(10)) * time.Second
 			if !e.block(absent, mid, txs, dt) && e.endErr != "" && !strings.HasPrefix(e.endErr, "err:empty") {
